@@ -133,6 +133,10 @@ def run_scenario(res: Result, seed: int) -> None:
                 ep = sim.net.endpoint(src_ip, src_port)
                 # ---- choose the arrival instant relative to the last sighting of one answering record
                 exp0, _, _ = model.expected([(n, t) for n, t, _ in questions], {})
+
+                def own_ttl(ident: Tuple, cached_ttl: float) -> float:
+                    ttls = universe.get(ident) or set()
+                    return float(next(iter(ttls))) if len(ttls) == 1 else cached_ttl
                 bucket = rng.choice(["quarter-1", "quarter", "quarter+1", "fresh", "old", "any"])
                 soon = is_probe and rng.random() < 0.5
                 if soon:
@@ -145,7 +149,7 @@ def run_scenario(res: Result, seed: int) -> None:
                     ident = rng.choice(sorted(exp0, key=repr))
                     rec = zc.cache.get(probe_obj(ident))
                     if rec is not None:
-                        quarter = rec.created + 250.0 * rec.ttl + {"quarter-1": -1.0, "quarter": 0.0, "quarter+1": 1.0}[bucket]
+                        quarter = rec.created + 250.0 * own_ttl(ident, rec.ttl) + {"quarter-1": -1.0, "quarter": 0.0, "quarter+1": 1.0}[bucket]
                         if quarter > sim.now_ms():
                             await sim.sleep_until_ms(quarter)
                         else:
@@ -158,7 +162,9 @@ def run_scenario(res: Result, seed: int) -> None:
                 sighting: Dict[Tuple, Optional[Tuple[float, float]]] = {}
                 for ident in universe:
                     rec = zc.cache.get(probe_obj(ident))
-                    sighting[ident] = None if rec is None else (rec.created, rec.ttl)
+                    # "a quarter of its TTL": the TTL the record is registered with - not the TTL of the looped-back copy in the
+                    # host's own cache, which for pointer records is raised to the 1125 s floor
+                    sighting[ident] = None if rec is None else (rec.created, own_ttl(ident, rec.ttl))
                 now = sim.now_ms()
                 auth = [(("PTR", target.type, ("probe-name." + target.type,)), 120)] if is_probe else []
                 data = R.build_query(questions, id_=qid, authorities=auth)
@@ -189,6 +195,21 @@ def run_scenario(res: Result, seed: int) -> None:
 def evaluate(res, sim, host, model, questions, legacy, is_probe, now, sighting, qid, src, rsock, mark, ep, viol, qdesc, layout) -> None:
     want_u, want_m, exact = route(model, questions, legacy, is_probe, now, sighting)
     universe = model.all_idents()
+    # A record that several registered services give different TTLs (address records of a shared host) has no single "its
+    # TTL": the quarter may be taken from any of them.  Where the smallest and the largest lead to different routes the record
+    # is accepted on either path (counted).
+    multi = {i: ttls for i, ttls in universe.items() if len(ttls) > 1}
+    ambiguous: Set[Tuple] = set()
+    if multi:
+        for pick in (min, max):
+            alt = dict(sighting)
+            for i, ttls in multi.items():
+                if alt.get(i) is not None:
+                    alt[i] = (alt[i][0], float(pick(ttls)))
+            u2, m2, _ = route(model, questions, legacy, is_probe, now, alt)
+            ambiguous |= (u2 ^ want_u) | (m2 ^ want_m)
+        if ambiguous:
+            res.obs("route_of_record_with_several_registered_ttls_accepted_either_way", len(ambiguous))
     entries = sim.net.trace[mark:]
     got_u: Set[Tuple] = set()
     got_m: Set[Tuple] = set()
@@ -250,7 +271,7 @@ def evaluate(res, sim, host, model, questions, legacy, is_probe, now, sighting, 
             m = wire.parse(e["data"], strict=True)
             if m.is_response:
                 (at_once_m if e["mcast"] else at_once_u).update(R.ident_of_wire(r) for r in m.answers)
-        late = sorted((want_m - at_once_m) | (want_u - at_once_u), key=repr)
+        late = sorted(((want_m - at_once_m) | (want_u - at_once_u)) - (ambiguous & (at_once_m | at_once_u)), key=repr)
         if late:
             when = sorted({round(e["t"] - now, 1) for e in entries for r in wire.parse(e["data"], strict=True).answers if R.ident_of_wire(r) in late})
             viol("c11.probe_at_once", "probe_answer_delayed", "probe %r: %r not sent in the arrival instant (sent at +%r ms)" % (questions, late[:3], when),
@@ -261,6 +282,7 @@ def evaluate(res, sim, host, model, questions, legacy, is_probe, now, sighting, 
         return
     res.mon("c11.routing")
     if exact:
+        got_u, want_u, got_m, want_m = got_u - ambiguous, want_u - ambiguous, got_m - ambiguous, want_m - ambiguous
         if got_u != want_u:
             viol("c11.routing", "unicast_set_differs", "query %r (legacy=%s probe=%s): unicast answers %r expected %r" % (
                 questions, legacy, is_probe, sorted(got_u, key=repr)[:4], sorted(want_u, key=repr)[:4]),
